@@ -1268,6 +1268,9 @@ class CanUnprotect(BaseSecurityContext):
             # FIXME is this necessary?
             raise ProtectionInvalid("Sender ID context does not match")
 
+        if not is_response and COSE_KID not in unprotected:
+            raise ProtectionInvalid("No key ID provided in request")
+
         if unprotected.pop(COSE_KID, self.recipient_id) != self.recipient_id:
             # for most cases, this is caught by the session ID dispatch, but in
             # responses (where explicit sender IDs are atypical), this is a
